@@ -35,6 +35,9 @@ pub mod int_c04_private;
 #[path = "pub_shim_nom.rs"]
 pub mod pub_shim_nom;
 
+#[path = "pub_shim_std.rs"]
+pub mod pub_shim_std;
+
 #[path = "pub_c05_ext.rs"]
 pub mod pub_c05_ext;
 
